@@ -166,7 +166,8 @@ def gen_config(rng, fam, out, i):
         if rng.random() < 0.3:
             prog += monitor_ops(rng, s, 2) + (["monitor", str(s), "-1", "0"] if end == "stop" else [])
         prog += ["yield", str(rng.choice([0, 10, 80, 300])), "state", end, "state"]
-        prog += ["start", "yield", str(rng.choice([0, 10]))] + (["monitor", str(s), "-1", "0"] if rng.random() < 0.3 else []) + ["stop"]
+        # a failed device has to be configured again before it can be started (it is no longer armed)
+        prog += ["configure", "start", "yield", str(rng.choice([0, 10]))] + (["monitor", str(s), "-1", "0"] if rng.random() < 0.3 else []) + ["stop"]
     elif fam == "avg":
         for a in range(nacq):
             prog += ["start"]
